@@ -42,6 +42,7 @@ ASSUMPTIONS = [
 EXCLUDE_KNOWN = {
     "remesh/array-only-mapper-with-unset": False,  # repaired in /repo (fix: commit); searched again
     "common/top-plane-dropped-for-anchor-below-it": True,
+    "converter/in/central-assembly-scaled-by-symmetry": True,
     "resample/sum-interval-inside-one-bin": False,  # repaired in /repo (fix: commit); searched again
     "resample/sum-modifies-array-input": False,  # repaired in /repo (fix: commit); searched again
     "resample/sum-none-in-partial-bin": False,  # repaired in /repo (fix: commit); searched again
@@ -62,6 +63,7 @@ PARAMS = {
     "power": ("int", "scalar", False),
     "powerGamma": ("int", "scalar", False),
     "kgHM": ("int", "scalar", False),
+    "molesHmBOL": ("int", "scalar", False),
     "rxFuelDopplerConstant": ("int", "scalar", False),
     "mgFlux": ("int", "array", True),
     "adjMgFlux": ("int", "array", True),
@@ -826,7 +828,7 @@ _ASSEM_NAMES = {("fuel", 0): "inner fuel", ("fuel", 1): "outer fuel", ("control"
 _CELLS = [(0, 0), (1, 0), (0, 1), (-1, 1), (-1, 0), (0, -1), (1, -1)]
 
 
-def _render_bp(designs, cells):
+def _render_bp(designs, cells, symmetry="full"):
     L = ["blocks:"]
     for kind, comps in _BLOCK_TEXT.items():
         L.append("    %s: &block_%s" % (kind, kind.replace(" ", "_")))
@@ -852,7 +854,7 @@ def _render_bp(designs, cells):
         L.append("        axial mesh points: [%s]" % ", ".join("1" for _ in d["kinds"]))
         L.append("        xs types: [%s]" % ", ".join("A" for _ in d["kinds"]))
     L += ["systems:", "    core:", "        grid name: core", "        origin: {x: 0.0, y: 0.0, z: 0.0}"]
-    L += ["grids:", "    core:", "        geom: hex", "        symmetry: full", "        grid contents:"]
+    L += ["grids:", "    core:", "        geom: hex", "        symmetry: %s" % symmetry, "        grid contents:"]
     for (i, j), di in cells:
         L.append("            [%d,%d]: %s" % (i, j, _SPECIFIERS[di]))
     return "\n".join(L) + "\n"
@@ -1103,18 +1105,32 @@ def common_execute(case):
 # part 3c: the converter round trip (convert -> results on the uniform copies -> applyStateToOriginal),
 #          whole core or the subset named by the nonUniformAssemFlags setting
 
-_SUBSETS = [[], ["primary control"], ["secondary control"], ["control"], ["outer fuel"], ["primary control", "outer fuel"], ["inner fuel", "control"]]
+_SUBSETS = [[], [], ["primary control"], ["secondary control"], ["control"], ["outer fuel"], ["primary control", "outer fuel"], ["inner fuel", "control"]]
 _CONV_PARAMS = ["power", "mgFlux", "pdens", "flux", "fluxPeak"]
+_THIRD_CELLS = [(0, 0), (1, 0), (1, 1), (2, 0), (2, -1)]
 
 
 def converter_strategy(tier):
+    change = st.fixed_dictionaries(
+        {
+            "kind": st.sampled_from(["grow", "fueltop", "fueltop", "resize"]),
+            "f": st.one_of(st.sampled_from([0.95, 1.02, 1.1]), st.floats(0.9, 1.1, allow_nan=False)),
+            "d": st.one_of(st.sampled_from([4.0, -4.0, 1.5]), st.floats(-8.0, 8.0, allow_nan=False)),
+            "k": st.integers(0, 5),
+        }
+    )
     return st.fixed_dictionaries(
         {
             "reactor": common_strategy(tier),
             "subset": st.integers(0, len(_SUBSETS) - 1),
+            "sym": st.sampled_from(["full", "full", "third periodic"]),
+            "umin": st.booleans(),
+            # further conversions with the SAME converter object after the axial geometry of the source changed
+            "rounds": st.lists(change, max_size=2),
             "vals": st.lists(st.one_of(st.sampled_from([1.0, 5.0, 1.0e6]), st.floats(0.0, 1.0e9, allow_nan=False)), min_size=8, max_size=8),
             "G": st.integers(1, 3),
             "flatFlux": st.booleans(),
+            "raw": st.just(False),
         }
     )
 
@@ -1128,6 +1144,31 @@ def _atoms(assem):
     return tot
 
 
+def _change_geometry(r, ch):
+    """Change the axial geometry of every assembly of the source reactor the same way (total heights stay equal)."""
+    from armi.reactor.flags import Flags
+
+    for a in r.core:
+        blocks_ = list(a)
+        if ch["kind"] == "grow":
+            for b in blocks_:
+                b.setHeight(b.getHeight() * ch["f"])
+            continue
+        if ch["kind"] == "fueltop":
+            col = [i for i, b in enumerate(blocks_) if b.hasFlags([Flags.FUEL, Flags.CONTROL])]
+            k = col[-1] + 1
+        else:
+            k = 1 + ch["k"] % (len(blocks_) - 1)
+        if k >= len(blocks_):
+            continue
+        lower, upper = blocks_[k - 1], blocks_[k]
+        d = max(min(ch["d"], upper.getHeight() - 0.5), -(lower.getHeight() - 0.5))
+        d = round(d, 4)
+        if d:
+            lower.setHeight(lower.getHeight() + d)
+            upper.setHeight(upper.getHeight() - d)
+
+
 def converter_execute(case):
     from armi.reactor import blueprints, reactors
     from armi.reactor.converters import uniformMesh as um
@@ -1135,75 +1176,140 @@ def converter_execute(case):
     from vp import env
 
     out = Out()
-    designs, cells, text = _common_designs(case["reactor"])
+    rc = case["reactor"]
+    designs, cells, text = _common_designs(rc)
+    sym = case.get("sym", "full")
+    if sym != "full":
+        cells = [(c, cells[i][1]) for i, c in enumerate(_THIRD_CELLS)]
+        text = _render_bp(designs, cells, symmetry=sym)
     subset = _SUBSETS[case["subset"] % len(_SUBSETS)]
-    cs = env.quiet_settings({"inputHeightsConsideredHot": True, "detailedAxialExpansion": True, "nonUniformAssemFlags": subset})
+    umin = rc["minimum"] if case.get("umin") else None
+    cs = env.quiet_settings({"inputHeightsConsideredHot": True, "detailedAxialExpansion": True, "nonUniformAssemFlags": subset,
+                             "uniformMeshMinimumSize": umin})
     r = reactors.factory(cs, blueprints.Blueprints.load(text))
     names = [a.getName() for a in r.core]
     vals = case["vals"]
-    # a stale state on the originals, which the mapping back has to replace
+    raw = bool(case.get("raw"))
+    S_SYM = "converter/in/central-assembly-scaled-by-symmetry"
+    S_TOP = "common/top-plane-dropped-for-anchor-below-it"
+    # a stale state on the originals, which the mapping back has to replace; heavy-metal moles are mapped "in"
     for a in r.core:
-        for b in a:
+        for k, b in enumerate(a):
             b.p.power = 1.0
             b.p.pdens = 0.01
             b.p.flux = 1.0
             b.p.fluxPeak = 2.0
-    pre = {nm: _read_params(r.core.getAssemblyByName(nm), _CONV_PARAMS) for nm in names}
-    orig_h = {nm: [float(b.getHeight()) for b in r.core.getAssemblyByName(nm)] for nm in names}
-    atoms0 = {nm: _atoms(r.core.getAssemblyByName(nm)) for nm in names}
-    if subset:
-        flags = [Flags.fromStringIgnoreErrors(f) for f in subset]
-        selected = [a.getName() for a in r.core.getAssemblies(flags)]
-    else:
-        selected = list(names)
-    out.label("path:" + ("subset" if subset else "whole-core"), "converted:%d" % min(len(selected), 7))
+            b.p.molesHmBOL = 1.0 + vals[(k + 2) % 8]
+    out.label("path:" + ("subset" if subset else "whole-core"), "symmetry:" + sym.split()[0], "minimum:" + ("set" if umin else "none"),
+              "rounds:%d" % (1 + len(case.get("rounds", []))))
     conv = um.NeutronicsUniformMeshConverter(cs=cs, calcReactionRates=False)
-    try:
-        conv.convert(r)
-    except ValueError as exc:
-        if "near the mean" in str(exc) or "non-physical" in str(exc):
-            out.rejected = True  # documented refusal of average1DWithinTolerance (assembly meshes too different)
-            out.label("outcome:average-refused")
-            return out
-        raise
-    ucore = conv.convReactor.core
-    uni = {}
-    for nm in selected:
-        ua = ucore.getAssemblyByName(nm)
-        # the copy sits on the uniform mesh and holds the same atoms
-        a1 = _atoms(ua)
-        for nuc, n0 in atoms0[nm].items():
-            out.check(abs(a1.get(nuc, 0.0) - n0) <= 1e-8 * abs(n0) + 1e-300, "converter/atoms-not-conserved",
-                      lambda: "%s %s: atoms %r -> %r on the uniform mesh (heights %r -> %r)" % (nm, nuc, n0, a1.get(nuc, 0.0), orig_h[nm], [b.getHeight() for b in ua]))
-        # "physics results" on the uniform copy
-        for k, b in enumerate(ua):
-            v = vals[k % 8]
-            b.p.power = v
-            b.p.mgFlux = [v * (g + 1) for g in range(case["G"])]
-            b.p.pdens = vals[0]
-            b.p.flux = vals[1] if case["flatFlux"] else vals[(k + 3) % 8]
-            b.p.fluxPeak = vals[(k + 5) % 8]
-        uni[nm] = ([0.0] + [float(b.p.ztop) for b in ua], _read_params(ua, _CONV_PARAMS))
-    conv.applyStateToOriginal()
     nontrivial = False
-    for nm in names:
-        a = r.core.getAssemblyByName(nm)
-        if not out.check(a is not None and [float(b.getHeight()) for b in a] == orig_h[nm], "converter/original-mesh-not-restored",
-                         lambda: "%s: block heights %r, originally %r" % (nm, None if a is None else [b.getHeight() for b in a], orig_h[nm])):
-            continue
-        got = _read_params(a, _CONV_PARAMS)
-        if nm not in selected:
-            out.check(got == pre[nm], "converter/unconverted-assembly-changed", lambda: "%s: %r -> %r" % (nm, pre[nm], got))
-            continue
-        uz, uv = uni[nm]
-        dz = ref.cumulative(orig_h[nm])
-        if any(abs(x - y) > 1e-6 for x in uz[1:-1] for y in dz[1:-1] if abs(x - y) < 1.0) or len(uz) != len(dz):
-            nontrivial = True
-        _check_mapping(out, "%s (%s)" % (nm, "subset" if subset else "whole core"), _CONV_PARAMS, uz, uv, dz, pre[nm], got, 2e-9, pfx="converter")
-        a2 = _atoms(a)
-        out.check(all(abs(a2.get(nuc, 0.0) - n0) <= 1e-9 * abs(n0) + 1e-300 for nuc, n0 in atoms0[nm].items()), "converter/original-atoms-changed",
-                  lambda: "%s: atoms of the original assembly changed by the round trip" % nm)
-    out.nontrivial = nontrivial and bool(selected)
+    for rnd, change in enumerate([None] + list(case.get("rounds", []))):
+        tag = "round %d" % (rnd + 1)
+        if change is not None:
+            conv.reset()  # documented way to clear a converter between uses
+            _change_geometry(r, change)
+            out.label("change:" + change["kind"])
+        pre = {nm: _read_params(r.core.getAssemblyByName(nm), _CONV_PARAMS + ["molesHmBOL"]) for nm in names}
+        orig_h = {nm: [float(b.getHeight()) for b in r.core.getAssemblyByName(nm)] for nm in names}
+        atoms0 = {nm: _atoms(r.core.getAssemblyByName(nm)) for nm in names}
+        if subset:
+            selected = [a.getName() for a in r.core.getAssemblies([Flags.fromStringIgnoreErrors(f) for f in subset])]
+        else:
+            selected = list(names)
+        # what a fresh generator makes of the current geometry (whole-core path; the generator itself is judged by common_mesh)
+        fresh = None
+        fresh_refused = False
+        if not subset:
+            g = um.UniformMeshGenerator(r, minimumMeshSize=umin)
+            try:
+                g.generateCommonMesh()
+                fresh = [float(x) for x in g._commonMesh]
+            except ValueError:
+                fresh_refused = True
+        try:
+            conv.convert(r)
+        except ValueError as exc:
+            msg = str(exc)
+            if "near the mean" in msg or "non-physical" in msg or ("anchor" in msg and fresh_refused):
+                out.rejected = True  # documented refusals: assembly meshes too different / anchors closer than the minimum
+                out.label("outcome:refused")
+                return out
+            raise
+        if not out.check(not fresh_refused, "converter/anchor-conflict-not-refused", tag + ": the mesh generator refuses this geometry, convert() did not"):
+            return out
+        ucore = conv.convReactor.core
+        top = max(math.fsum(h) for h in orig_h.values())
+        short_known = False
+        if fresh is not None:
+            used = [float(x) for x in ucore.getAssemblyByName(names[0]).getAxialMesh()]
+            out.check(len(used) == len(fresh) and all(abs(x - y) <= 1e-9 * max(1.0, y) for x, y in zip(used, fresh)),
+                      "converter/uniform-mesh-not-from-current-geometry",
+                      lambda: "%s: the copies sit on %r, a generator run on the current source gives %r" % (tag, used, fresh))
+            if abs(fresh[-1] - top) > 1e-6:
+                # the generator itself drops the top plane: judged (and known) in common_mesh
+                # (the shorter copies cannot be mapped back: getBlocksBetweenElevations refuses loudly); nothing more to judge here
+                out.label("excluded:" + S_TOP)
+                return out
+        uni = {}
+        for nm in selected:
+            ua = ucore.getAssemblyByName(nm)
+            src = r.core.getAssemblyByName(nm) if not subset else None
+            uz = [0.0] + [float(b.p.ztop) for b in ua]
+            if not short_known:
+                out.check(abs(uz[-1] - math.fsum(orig_h[nm])) <= 1e-6, "converter/copy-height",
+                          lambda: "%s %s: source height %r, uniform copy %r" % (tag, nm, math.fsum(orig_h[nm]), uz[-1]))
+                a1 = _atoms(ua)
+                for nuc, n0 in atoms0[nm].items():
+                    out.check(abs(a1.get(nuc, 0.0) - n0) <= 1e-8 * abs(n0) + 1e-300, "converter/atoms-not-conserved",
+                              lambda: "%s %s %s: atoms %r -> %r on the uniform mesh (heights %r -> %r)" % (tag, nm, nuc, n0, a1.get(nuc, 0.0), orig_h[nm], [b.getHeight() for b in ua]))
+                # volume-integrated parameter mapped in
+                got_in = _read_params(ua, ["molesHmBOL"])
+                sub = Out()
+                _check_mapping(sub, "%s %s in" % (tag, nm), ["molesHmBOL"], ref.cumulative(orig_h[nm]), {"molesHmBOL": pre[nm]["molesHmBOL"]}, uz,
+                               {"molesHmBOL": [0.0] * (len(uz) - 1)}, got_in, 2e-9, pfx="converter/in")
+                if sub.violations:
+                    sf = float(ua.getSymmetryFactor())
+                    tot0 = math.fsum(pre[nm]["molesHmBOL"])
+                    tot1 = math.fsum(got_in["molesHmBOL"])
+                    if sf != 1.0 and abs(tot1 * sf - tot0) <= 1e-8 * tot0:
+                        if EXCLUDE_KNOWN[S_SYM] and not raw:
+                            out.label("excluded:" + S_SYM)
+                        else:
+                            out.fail(S_SYM, "%s %s (symmetry factor %r): molesHmBOL total %r on the source, %r on the uniform copy" % (tag, nm, sf, tot0, tot1))
+                    else:
+                        out.violations.extend(sub.violations)
+            # "physics results" on the uniform copy
+            for k, b in enumerate(ua):
+                v = vals[(k + rnd) % 8]
+                b.p.power = v
+                b.p.mgFlux = [v * (g_ + 1) for g_ in range(case["G"])]
+                b.p.pdens = vals[rnd % 8]
+                b.p.flux = vals[(1 + rnd) % 8] if case["flatFlux"] else vals[(k + 3 + rnd) % 8]
+                b.p.fluxPeak = vals[(k + 5 + rnd) % 8]
+            uni[nm] = (uz, _read_params(ua, _CONV_PARAMS))
+        conv.applyStateToOriginal()
+        for nm in names:
+            a = r.core.getAssemblyByName(nm)
+            if not out.check(a is not None and [float(b.getHeight()) for b in a] == orig_h[nm], "converter/original-mesh-not-restored",
+                             lambda: "%s %s: block heights %r, originally %r" % (tag, nm, None if a is None else [b.getHeight() for b in a], orig_h[nm])):
+                continue
+            got = _read_params(a, _CONV_PARAMS)
+            prev = {k_: pre[nm][k_] for k_ in _CONV_PARAMS}
+            if nm not in selected:
+                out.check(got == prev, "converter/unconverted-assembly-changed", lambda: "%s %s: %r -> %r" % (tag, nm, prev, got))
+                continue
+            uz, uv = uni[nm]
+            dz = ref.cumulative(orig_h[nm])
+            if len(uz) != len(dz) or any(abs(x - y) > 1e-6 for x, y in zip(uz, dz)):
+                nontrivial = True
+            if short_known:
+                continue
+            _check_mapping(out, "%s %s (%s)" % (tag, nm, "subset" if subset else "whole core"), _CONV_PARAMS, uz, uv, dz, prev, got, 2e-9, pfx="converter")
+            a2 = _atoms(a)
+            out.check(all(abs(a2.get(nuc, 0.0) - n0) <= 1e-9 * abs(n0) + 1e-300 for nuc, n0 in atoms0[nm].items()), "converter/original-atoms-changed",
+                      lambda: "%s %s: atoms of the original assembly changed by the round trip" % (tag, nm))
+    out.nontrivial = nontrivial and len(case.get("rounds", [])) >= 1
     return out
 
 
